@@ -1,12 +1,17 @@
 (* C01 — PROV-JSON round trip.  Proved at value level: every stored value of every
    natively handled kind survives encode_json_representation ->
    decode_json_representation -> normalisation on insertion unchanged (same Python
-   kind, datatype, language, URI).  The container level (prefix block, record maps,
-   repeated identifiers as arrays, anonymous identifiers, bundles) is modelled in
-   Json.v and established per run by the correspondence and the strict-content round
-   trip oracle; its proof is stated below and not yet closed (partial). *)
+   kind, datatype, language, URI); at attribute level: an attribute with any number of
+   values comes back as exactly those values in that order; and at record level: the
+   object written for a record is read back, in a container declaring the record's
+   names, as a record of the same kind and identifier whose every attribute holds the
+   same values (C01_record_roundtrip, C01_record_same_attributes).  The container level
+   (prefix block, record maps, repeated identifiers as arrays, anonymous identifiers,
+   bundles) is modelled in Json.v and established per run by the correspondence and the
+   strict-content round trip oracle; its proof is stated below and not yet closed
+   (partial). *)
 From Coq Require Import String List ZArith Bool.
-From Prov Require Import Str Sexp Tables Nsm NsmProofs Values Record World Jtree Json JsonProofs IsoProofs TimeProofs.
+From Prov Require Import Str Sexp Tables Nsm NsmProofs Values Record World Jtree Json JsonProofs IsoProofs TimeProofs JsonRecProofs.
 Import ListNotations.
 Open Scope string_scope.
 
@@ -54,6 +59,42 @@ Theorem C01_decoded_wellformed : forall ft t nd, decode_doc ft t = OK nd ->
   WorldProofs.DCoh nd /\ StrProofs.uniq (dbundles nd).
 Proof. exact decode_doc_inv. Qed.
 Print Assumptions C01_decoded_wellformed.
+
+(* ---- attribute level: one member per attribute; n values come back as n (attribute, value)
+   arguments, in order, each normalising to the value written *)
+Theorem C01_attribute_roundtrip : forall c m a v vs,
+  is_qname_attr a = false -> is_time_attr a = false -> Forall (rt c m) (v :: vs) ->
+  exists j l, encode_attr (a, v :: vs) = [(qn_str a, j)] /\
+              decode_values (cparent c) m (NQn a) (unwrap j) = OK l /\
+              Forall2 (carried c m a) l (v :: vs).
+Proof. exact json_attr_roundtrip. Qed.
+Print Assumptions C01_attribute_roundtrip.
+
+(* ---- record level.  attr_good: the attribute's name is declared in the reading container and
+   is read back as itself, its values are round-trippable (the C01_value theorems), formal attributes hold
+   one reference or time.  live: the record's attributes that hold a value, formal ones first. *)
+Theorem C01_record_roundtrip : forall par ft b kind rec_id idq r,
+  let c := mkCtx par ft in
+  let m := bns b in
+  NoDup (member_names (rattrs r)) -> NoDup (map key_uri (rattrs r)) ->
+  Forall (attr_good c m) (rattrs r) -> Forall (fun kv => set_distinct (snd kv)) (rattrs r) ->
+  resolve_o c m (NStr rec_id) = Done m idq ->
+  (is_element kind = false \/ idq <> None) ->
+  decode_elements par ft b kind rec_id [encode_record_obj r]
+  = (add_rec_to (with_ns b m) (mkRec kind idq (live (rattrs r))), OK tt).
+Proof. exact json_record_roundtrip. Qed.
+Print Assumptions C01_record_roundtrip.
+
+Theorem C01_record_same_attributes : forall attrs x,
+  NoDup (map key_uri attrs) -> attr_get x (live attrs) = attr_get x attrs.
+Proof. exact live_same_attributes. Qed.
+
+(* the premises hold for a concrete record with a two-valued attribute, a reference, a type and an
+   emptied attribute *)
+Example C01_record_roundtrip_applies :
+  decode_elements None [] x_b "Usage" "ex:u" [encode_record_obj x_r]
+  = (add_rec_to (with_ns x_b x_m) (mkRec "Usage" (Some (x_q "u")) (live (rattrs x_r))), OK tt).
+Proof. exact json_record_roundtrip_applies. Qed.
 
 (* full statement (not yet proved): for every well-formed, unambiguous, JSON-expressible
    document, decoding any member-permutation of its encoding gives a document with the
